@@ -18,9 +18,10 @@ What is checked
       bound is visited) and on long random walks, compared with the model after every action (states,
       counters, journals keys, every frame in flight, deliveries, accepted sends) and after settling, and
       decided by an independent oracle written from the property text.
-The theorems (Props/C07.v) cover the single-break family for all n, k in each direction separately; general
-interleavings (incl. traffic in flight in both directions at the break, and every schedule with two or more
-breaks) are explored only.
+The theorems (Props/C07.v) cover the single-break family for all n, k in each direction separately, and the A -> B
+family followed by any number of further breaks during the retransmission (C07_repeated_breaks); general
+interleavings (traffic in flight in both directions at a break, events during the Logon exchange, breaks at other
+moments of the recovery) are explored only.  The model describes the code WITH the D10 and D12 repairs.
 
 Schedule syntax: words  sA sB (application send)  fA fB (send on a dead transport, then break)
                         dA dB (deliver next item towards A / B)  BRK  REC
@@ -54,7 +55,7 @@ META = {
         "the session model Fix/Session.v (atomic handlers, message level) that Fix/Net.v is built on; tied to the code by "
         "this harness after every action and by the C04/C05/C11 correspondence",
         "general interleavings are EXPLORED (model BFS with state hashing + implementation runs), not proved; the theorems "
-        "cover the single-break family",
+        "cover the single-break families (each direction) and the A->B family with any number of further breaks during the retransmission",
     ],
     "assumptions": [
         "frames are delivered whole (byte-level reassembly is C03), handlers run atomically (no task interleaving inside "
@@ -639,6 +640,8 @@ WITNESSES = [
     "REC dB dA sA sA sA dB BRK REC",              # single-break family n=3 k=2 (C07_single_break)
     "REC dB dA sB sB sB dA BRK REC",              # mirror family n=3 k=2 (C07_single_break_B_to_A)
     "REC dB dA sA sB BRK REC",                    # both directions in flight
+    # C07_repeated_breaks_instance: n = 5, four in flight, then breaks after 1, 0 and 2 retransmissions
+    "REC dB dA sA sA sA sA sA dB BRK REC dB dA dA dB BRK REC dB dA dA BRK REC dB dA dA dB dB BRK REC",
     "REC dB dA sA fA REC",                        # write error variant
 ]
 
@@ -693,12 +696,9 @@ def run(ctx):
     if model:
         # quick: the exploration tree of a smaller bound (every state of it is visited), all its leaves;
         # thorough: the tree of the property-text bound
-        if thorough:
-            tree = main_leaves
-        else:
-            _, tree, _, _ = explore(model, 2, 2, 11, False)
-            extra = [a for a in main_failing if len(a) <= 10]
-            tree = tree + extra[:150]
+        # the exploration tree of the main bound (quick: depth 12, thorough: the property-text bound, depth 14):
+        # every explored state is visited on the implementation; plus any failing state of the model
+        tree = main_leaves + main_failing[:300]
         scheds += tree
     seen_txt, uniq = set(), []
     for a in scheds:
@@ -708,7 +708,7 @@ def run(ctx):
             uniq.append(a)
     scheds = uniq
     jobs = [("run", c) for c in chunks(scheds, core.NPROC * 2)]
-    nwalks = ctx.scale(96, 2000)
+    nwalks = ctx.scale(160, 2000)
     seeds = [ctx.rng.randrange(1 << 30) for _ in range(nwalks)]
     half = len(seeds) // 2
     jobs += [("walk", c, 60, 1) for c in chunks(seeds[:half], core.NPROC)]      # single break: the theorems' side
